@@ -50,6 +50,11 @@ CHECKS = {
         text="Reference encodings of values of every struct type are re-encoded with well-formed unknown fields (25 kinds: every wire type, nesting 6, mixed-width lists, head-like simple-list content, extended tags) at every position tag order allows incl. nested structs, list elements and map values; the generated decoder must succeed with the identical value and ReadBlock must end exactly behind the StructEnd; dropped optional members must decode to the IDL default in fresh and reused targets; each dropped required member must be an error; EvoOld/EvoNew are decoded across versions.",
         note="Encodings come from the reference encoder. Quick tier samples 4 extra kinds per insertion point, thorough all 25.",
         design="DESIGN.md §4 C04"),
+    "C06": dict(
+        technique="runtime monitor: strict reference parser as oracle over exhaustively enumerated damages (prefixes, length inflations, inadmissible wire types) of reference encodings, real decoders in child processes with write-ahead case log",
+        text="From reference encodings of values of every generated struct type: every proper prefix, every embedded length inflated, every member / nested member / first element / first map value replaced by each inadmissible wire type; the real generated decoder may fail, or succeed only with exactly the value of the complete fields as determined by the independent strict parser (missing members optional and at default); for type substitutions only failure is accepted. TUP attribute sets and single primitive fields likewise. Children carry an address-space limit and a write-ahead log so that one fatal input does not end the monitor.",
+        note="Damage kinds are enumerated exhaustively per encoding; encodings are sampled (4 values per type quick, 40 thorough). Panics / over-allocation caused by damaged input are counted here and judged under C05.",
+        design="DESIGN.md §4 C06"),
 }
 
 NOT_BUILT_REASON = "check not built yet in this session (runtime-monitoring design exists in DESIGN.md §4; machinery in progress) — not claimed until its monitor runs silent on the unchanged tree"
